@@ -27,6 +27,14 @@ class Injected(OSError):
     pass
 
 
+class Abort(BaseException):
+    """Raised by the stream / a watchdog timer when a (corrupted) input makes the reader loop without end: like an
+    interrupt, it is one more exit path on which the setting must be restored."""
+
+
+MAX_CALLS = 20000
+
+
 class FaultStream:
     """A binary stream over bytes that counts read/seek/tell calls, logs the strictness setting at each call,
     and raises at the fail_at-th call."""
@@ -41,7 +49,14 @@ class FaultStream:
     def _tick(self, kind):
         import rv.errors
         self._n += 1
-        self._log.append({"op": "io", "call": kind, "n": self._n, "flag": bool(rv.errors.RAISE_CONTROLLER_VALUE_ERRORS)})
+        flag = bool(rv.errors.RAISE_CONTROLLER_VALUE_ERRORS)
+        last = self._log[-1] if self._log else None
+        if last is not None and last.get("op") == "io" and last["flag"] == flag:
+            last["count"] += 1              # run-length form: consecutive stream calls observing the same value
+        else:
+            self._log.append({"op": "io", "call": kind, "n": self._n, "flag": flag, "count": 1})
+        if self._n > MAX_CALLS:
+            raise Abort("reader does not terminate")
         if self._fail_at is not None and self._n == self._fail_at:
             raise Injected("injected fault at call %d" % self._n)
 
@@ -206,16 +221,17 @@ def run(ctx):
         for flag0 in (True, False):
             for kind in ("stream", "path"):
                 base = add(name, data, flag0, kind)
-        ncalls = sum(1 for e in base["events"] if e["op"] == "io")
+        ncalls = sum(e["count"] for e in base["events"] if e["op"] == "io")
         # an I/O error at individual call indices
         ks = list(range(1, ncalls + 1))
-        if q:
+        lim = 8 if q else 150
+        if len(ks) > lim:
             rnd.shuffle(ks)
-            ks = sorted(ks[:8] + [1, ncalls])
+            ks = sorted(set(ks[:lim] + [1, ncalls]))
         for k in ks:
             add(name, data, rnd.choice([True, True, False]), "path" if k % 2 else "stream", fail_at=k)
         # truncation / corruption at chunk positions, also inside embedded containers
-        for cname, cdata in corruptions(data, rnd, 4 if q else 40):
+        for cname, cdata in corruptions(data, rnd, 4 if q else 25):
             add(name + ":" + cname, cdata, rnd.choice([True, True, False]), rnd.choice(["path", "stream"]))
     if not any(e["op"] == "nested_enter" for t in traces for e in t["events"]):
         raise MachineryError("no nested load was observed")
@@ -236,5 +252,5 @@ def run(ctx):
     ctx.sample({"id": s["id"], "flag0": s["flag0"], "events_head": s["events"][:3], "events_tail": s["events"][-4:], "n": len(s["events"])})
     ctx.cov["raised"] = sum(1 for t in traces if t["events"][-1]["op"] == "raise")
     ctx.cov["with_nested_load"] = sum(1 for t in traces if any(e["op"] == "nested_enter" for e in t["events"]))
-    trace.validate(ctx, "Trace_RVLoad", traces, "c18_load", canaries=cans, where=lambda tr, m: tr["id"][:160])
+    trace.validate(ctx, "Trace_RVLoad", traces, "c18_load", canaries=cans, where=lambda tr, m: tr["id"][:160], timeout=3000)
     ctx.exhaustive = False
